@@ -12,6 +12,7 @@
   * `never_other`        : `FlowReader.stream` on ANY bytes ends cleanly or with FlowReadException
 -/
 import MitmVerif.Lemmas.C36
+import MitmVerif.Model.C36_Gate
 namespace MitmVerif.Props.C36
 open MitmVerif MitmVerif.C36
 
@@ -210,6 +211,89 @@ theorem corrupted_tail_ends_in_flow_read_error {α : Type} (env : Env α)
       ((readAll env (encList vs ++ tail)).2 = .clean ∨ (readAll env (encList vs ++ tail)).2 = .flowRead) :=
   ⟨corrupted_tail_keeps_flows env vs fl hgood tail, never_other env hfs _⟩
 
+/-- the transcribed dispatch keeps the reader inside `never_other`'s hypothesis -/
+theorem gated_never_other {α : Type} (env : Env α) (hfs : ∀ i v, env.fromState i v ≠ .error .nonException)
+    (file : Bytes) : (readAll (gated env) file).2 = .clean ∨ (readAll (gated env) file).2 = .flowRead := by
+  apply never_other
+  intro i v
+  simp only [gated]
+  split <;> first | (intro h; cases h) | exact hfs i v
+
+/-- **C36 (which records are accepted — rejected ones).** With the reader's version check and type dispatch
+    transcribed (`gate`): a well-formed dict record whose loaded form the gate rejects — no / unknown / future
+    version, malformed version value, missing / unregistered / unhashable type — ends the read with
+    FlowReadException; exactly the flows of the good records before it are yielded, whatever follows it. -/
+theorem rejected_record_stops_reader {α : Type} (env : Env α) (vs : List Value) (fl : List α)
+    (hgood : Good (gated env) 0 vs fl) (v : Value) (tail : Bytes)
+    (hwf : WF v) (hdict : isDict v = true) (h12 : (enc v).length < 10 ^ 12)
+    (hm : (enc v).length ≤ env.memLimit) (hd : depth v ≤ env.depth)
+    (hrej : gate (mirror v) = .rejectV ∨ gate (mirror v) = .rejectX) :
+    readAll (gated env) (encList vs ++ (enc v ++ tail)) = (fl, .flowRead) := by
+  have hm' : (enc v).length ≤ (gated env).memLimit := hm
+  have hd' : depth v ≤ (gated env).depth := hd
+  have hstep : ∀ g i, streamLoop (gated env) (g + 1) i (enc v ++ tail) = ([], .flowRead) := by
+    intro g i
+    have hfs : (gated env).fromState i (mirror v) = .error .valueError ∨
+        (gated env).fromState i (mirror v) = .error .exception := by
+      rcases hrej with h | h <;> simp [gated, h]
+    simp only [streamLoop, load_enc v tail _ _ hwf h12 hm' hd', isDict_mirror, hdict, Bool.not_true,
+      Bool.false_eq_true, if_false]
+    rcases hfs with h | h <;> simp [h]
+  have hlen : ∀ l : List Value, l.length ≤ (encList l).length := by
+    intro l
+    induction l with
+    | nil => simp
+    | cons v t ih => have := enc_length_ge v; simp [encList]; omega
+  have h3 := enc_length_ge v
+  have hL : vs.length + 1 ≤ (encList vs ++ (enc v ++ tail)).length := by
+    have := hlen vs; simp only [List.length_append]; omega
+  obtain ⟨c, cs, hc, hdig⟩ : ∃ c cs, encList vs ++ (enc v ++ tail) = c :: cs ∧ isDigit c = true := by
+    cases vs with
+    | nil =>
+      obtain ⟨c, cs, hc, hdig⟩ := enc_head_digit v
+      exact ⟨c, cs ++ tail, by simp [encList, hc], hdig⟩
+    | cons v0 vt =>
+      obtain ⟨c, cs, hc, hdig⟩ := enc_head_digit v0
+      exact ⟨c, cs ++ encList vt ++ (enc v ++ tail), by simp [encList, hc], hdig⟩
+  unfold readAll
+  rw [hc, sniff_digit c cs hdig]
+  simp only [Bool.false_eq_true, if_false]
+  rw [← hc]
+  obtain ⟨g, hg⟩ : ∃ g, (encList vs ++ (enc v ++ tail)).length + 1 = vs.length + (g + 1) :=
+    ⟨(encList vs ++ (enc v ++ tail)).length - vs.length, by omega⟩
+  rw [hg, stream_records_tail (gated env) vs fl 0 (g + 1) _ hgood, hstep]
+  simp
+
+/-- **C36 (which records are accepted — accepted ones).** A record passes the transcribed dispatch only if its
+    normalised version is the current flow format version and its `type` is a registered flow type. -/
+theorem gate_pass_current_and_registered (v : Value) (ty : Bytes) (h : gate v = .pass ty) :
+    ∃ kvs, v = .dict kvs ∧ versionClass (rawVersion kvs) = .ver Gen.C38.current ∧
+      Gen.C36.flowTypes.contains ty = true := by
+  cases v with
+  | dict kvs =>
+    refine ⟨kvs, rfl, ?_⟩
+    simp only [gate] at h
+    cases hv : versionClass (rawVersion kvs) with
+    | typeError => rw [hv] at h; simp at h
+    | floaty => rw [hv] at h; simp at h
+    | notKey => rw [hv] at h; simp at h
+    | ver ver =>
+      rw [hv] at h
+      simp only [] at h
+      by_cases hcur : ver = Gen.C38.current
+      · refine ⟨by rw [hcur], ?_⟩
+        simp only [hcur, if_true, typeGate] at h
+        split at h <;> first | (simp at h; done) | skip
+        rename_i u _
+        by_cases hu : u ∈ Gen.C36.flowTypes
+        · have hc : Gen.C36.flowTypes.contains u = true := by simpa using hu
+          rw [if_pos hc] at h; cases h; exact hc
+        · have hc : ¬ (Gen.C36.flowTypes.contains u = true) := by simpa using hu
+          first | (rw [if_neg hc] at h; cases h) | (rw [if_neg hu] at h; cases h)
+      · simp only [hcur, if_false] at h
+        split at h <;> simp at h
+  | _ => simp [gate] at h
+
 -- ------------------------------------------------------------------------------------------------
 -- non-vacuity and sanity (computed by the kernel)
 -- ------------------------------------------------------------------------------------------------
@@ -246,5 +330,17 @@ example : (readAll (α := Nat) ⟨100, 5, fun _ _ => .error .nonException, fun _
   decide +kernel
 example : (readAll (α := Nat) ⟨100, 5, fun _ _ => .error .exception, fun _ => ([], true)⟩ [0x30, 0x3a, 0x7d]).2 = .flowRead := by
   decide +kernel
+
+-- the transcribed dispatch on concrete loaded records
+private def kv (k : String) (v : Value) : Value × Value := (.str k.toUTF8.toList, v)
+example : gate (.dict [kv "version" (.int 21), kv "type" (.str "http".toUTF8.toList)]) = .pass "http".toUTF8.toList := by decide +kernel
+example : gate (.dict [kv "version" (.int 21)]) = .rejectX := by decide +kernel                         -- KeyError 'type'
+example : gate (.dict [kv "version" (.int 21), kv "type" (.str "ftp".toUTF8.toList)]) = .rejectV := by decide +kernel
+example : gate (.dict [kv "version" (.int 99)]) = .rejectV := by decide +kernel                         -- please update
+example : gate (.dict [kv "version" (.int 20)]) = .defer := by decide +kernel
+example : gate (.dict []) = .rejectX := by decide +kernel                                                -- tuple(None)
+example : gate (.dict [(.bytes bVersion, .list [.int 3, .int 0]), kv "version" (.int 21)]) = .defer := by decide +kernel  -- b"version" wins
+example : gate (.dict [kv "version" (.bytes [0, 11])]) = .defer := by decide +kernel                    -- tuple(b"\x00\x0b") == (0, 11)
+example : gate (.dict [kv "version" (.list [.list [], .int 1])]) = .rejectX := by decide +kernel        -- unhashable component
 
 end MitmVerif.Props.C36
